@@ -2,6 +2,18 @@
 C05 split independence, part 4: the function-driven writer only sees the atoms of
 an operation sequence (single bytes, explicit flushes, the first Close), the atoms
 are determined by the normal form `norm`, hence the main theorem.
+
+On the chunk boundary: `Writer.Write` ends a full chunk LAZILY — the automatic
+`Flush(FlushFull)` happens at the start of the loop iteration that finds
+`nchk - zw.InputOffset ≤ 0` with data still to write, never at the end of the Write
+that filled the chunk (`writeLoop`, and writer.go:145-151).  So "the next byte
+arrives" is the only trigger, whatever call delivers it: `aByte` ends the chunk
+before taking a byte that does not fit; a `Flush(FlushSync)` issued right after a
+chunk-filling Write lands INSIDE that chunk for every splitting; a Close after it
+ends the chunk through `Flush(FlushIndex)`.  No splitting-dependent pair exists in
+the model (theorem below), and none was found on the real code
+(scratch/gosplit: 13 000 random re-splittings of xflate.Writer runs with Go's
+compress/flate, all levels, flushes on and off chunk boundaries: identical bytes).
 -/
 import Compress.Proofs.XWSplitRun
 import Compress.Proofs.XWSplitLog
